@@ -74,7 +74,7 @@ namespace via
             size_t pad_chars(std::count(input.begin(), input.end(), PAD_CHARACTER));
             std::replace(input.begin(), input.end(), PAD_CHARACTER, 'A');
             std::string output(ItBinaryT(input.begin()), ItBinaryT(input.end()));
-            output.erase(output.end() - pad_chars, output.end());
+            output.erase(output.size() - (std::min)(pad_chars, output.size()));
             return output;
           }
           catch (std::exception const&)
